@@ -394,6 +394,20 @@ type LockCommandData struct {
 	DataFlag     uint8
 }
 
+// IsLockCommandDataFrame reports whether data is a complete value frame: the 6-byte header and,
+// when the flag byte announces one, the whole property block.
+func IsLockCommandDataFrame(data []byte) bool {
+	if len(data) < 6 {
+		return false
+	}
+	if data[5]&LOCK_DATA_FLAG_CONTAINS_PROPERTY != 0 {
+		if len(data) < 8 || int(data[6])|int(data[7])<<8 > len(data)-8 {
+			return false
+		}
+	}
+	return true
+}
+
 func NewLockCommandDataFromOriginBytes(data []byte) *LockCommandData {
 	return &LockCommandData{data, data[4] >> 6, data[4] & 0x3f, data[5]}
 }
@@ -729,6 +743,9 @@ func (self *LockCommandData) DecodeLockCommand(lockCommand *LockCommand) error {
 			return errors.New("data size error")
 		}
 		copy(buf[4:], self.Data[valueOffset+68:valueOffset+dataLen+68])
+		if !IsLockCommandDataFrame(buf) {
+			return errors.New("data frame error")
+		}
 		lockCommand.Data = NewLockCommandDataFromOriginBytes(buf)
 	}
 	return nil
